@@ -321,7 +321,12 @@ def judge_many_creations(ctx, case):
     bad = []
     not_applicable = 0
     try:
+        t_start = time.time()
         for i in range(N):
+            if i % 4096 == 0 and time.time() - t_start > (120 if ctx.tier == "quick" else 1500):
+                ctx.extra["many_creations_cut_short_by_time_budget"] = i
+                N = i
+                break
             del served[:]
             mn = b39.mnemonic_from_entropy_bits(entropy_bits=ENT[L])
             mine = b"".join(served)
